@@ -91,6 +91,41 @@ def k2_and_k1a(ctx):
         if r != pascal(n):
             run.broken("K2 pascal", f"model {r!r} vs str_to_pascal_case {pascal(n)!r} for {n!r}")
             return
+    # K2: the model's NoFragmentCycles check vs graphql-core's rule, on random small fragment sets (cyclic or not;
+    # spreads at the top level, inside inline fragments, inside nested fields, conditional)
+    from graphql import NoFragmentCyclesRule, build_schema as _bs, parse as _parse, validate as _validate
+
+    zoo = _bs(frag_scen.SDL)
+    docs, cmds = [], []
+    for _ in range(250 if not ctx.thorough else 1500):
+        k = rng.randint(1, 5)
+        names_ = [rng.choice(["F", "g", "h_x", "Zed"]) + str(i) for i in range(k)]
+        defs = []
+        for nme in names_:
+            parts = ["id"]
+            for _j in range(rng.choice([0, 0, 0, 1, 1, 2])):
+                tgt = rng.choice(names_)
+                sp = "..." + tgt + rng.choice(["", "", " @include(if: true)"])
+                parts.append(rng.choice([sp, "... on Dog { " + sp + " }", "mate { " + sp + " }",
+                                         "mate { mate { ... on Dog { " + sp + " } } }"]))
+            defs.append(f"fragment {nme} on Dog {{ " + " ".join(parts) + " }")
+        text = "\n".join(defs) + "\nquery Q { dog { id } }\n"
+        doc = _parse(text)
+        ok = not _validate(zoo, doc, [NoFragmentCyclesRule])
+        enc = frag_inputs.Encoded(frag_scen.SDL, text)
+        frs = [[f.name.value, f.type_condition.name.value, frag_inputs.mixins_of(f), frag_inputs.sel_sx(f.selection_set)]
+               for f in enc.frags]
+        docs.append((text, ok))
+        cmds.append([Sym("nocycles"), frs])
+    n_cyc = 0
+    for (text, ok), r in zip(docs, model.batch("C08", cmds)):
+        run.count()
+        n_cyc += (not ok)
+        if (r == "t") != ok:
+            run.broken("K2 NoFragmentCycles", f"model {r!r} vs graphql-core {'no cycle' if ok else 'cycle'} for {text!r}")
+            return
+    run.dist("k2_no_fragment_cycles_documents", "cyclic", n_cyc)
+    run.dist("k2_no_fragment_cycles_documents", "acyclic", len(docs) - n_cyc)
     # K1a
     try:
         from graphql import build_schema
